@@ -171,9 +171,9 @@ func init() {
 		Level: "exploration",
 		Race:  true,
 		Rule: "one case = one probe call (WriteThru with explicit timestamp and frame; format x 15 severities incl. registered fg-only / fg+bg / no colour and unregistered; groups, errors, multi-line messages, caller on/off, long values) formatted once by a fresh context (pool flushed with two GC cycles) and then again after each of 6 generated histories of 1-20 other records " +
-			"(other formats, levels with background colours or none, sizes, other loggers, other goroutines, interleaved GC); GOMAXPROCS=1 so the pooled context is deterministically reused, which a marshaller spy confirms per execution. Oracle: byte equality. Round 12 (chdir): between history and probe the process may apply TZ (local-time mode, an instant in another zone), empty the known-path table or remove its home entry (the frame lies under the $HOME the process was started with). non-trivial = probe compared after all histories; distinct = by probe bytes. chdir: the reference is ANOTHER process - two processes started alike go chdir(A), chdir(B), probe (caller information on, frame in the library or the harness, privacy flag on/off); one of them logged in A (a caller record, one on a goroutine, several, one without caller info); payloads equal. parallel: 3-33 goroutines, each with a logger, destination and WriteThru call of its own, replay their call 150-1500 times at once (also under the race detector); every replay equals the payload obtained while the process was quiet",
+			"(other formats, levels with background colours or none, sizes, other loggers, other goroutines, interleaved GC); GOMAXPROCS=1 so the pooled context is deterministically reused, which a marshaller spy confirms per execution. Oracle: byte equality. Round 12 (chdir): between history and probe the process may apply TZ (local-time mode, an instant in another zone), empty the known-path table or remove its home entry (the frame lies under the $HOME the process was started with). Round 13 (sharedhandler): one log/slog handler family (0-3 WithGroup / WithAttrs steps) shared by 2-16 goroutines, each replaying a hand-built record of its own; every payload equals the quiet payload of the record it carries; also under the race detector. non-trivial = probe compared after all histories; distinct = by probe bytes. chdir: the reference is ANOTHER process - two processes started alike go chdir(A), chdir(B), probe (caller information on, frame in the library or the harness, privacy flag on/off); one of them logged in A (a caller record, one on a goroutine, several, one without caller info); payloads equal. parallel: 3-33 goroutines, each with a logger, destination and WriteThru call of its own, replay their call 150-1500 times at once (also under the race detector); every replay equals the payload obtained while the process was quiet",
 		Assumptions: []string{"two runtime.GC() cycles empty sync.Pool (victim cache), giving a fresh formatting context for the reference"},
-		Floors:      map[string]int64{"probe_executions": 500, "reuse_of_pooled_context_confirmed": 100, "reuse_after_a_different_class_of_record": 50, "probe_pairs_compared": 30, "parallel_replays": 20000},
+		Floors:      map[string]int64{"probe_executions": 500, "reuse_of_pooled_context_confirmed": 100, "reuse_after_a_different_class_of_record": 50, "probe_pairs_compared": 30, "parallel_replays": 20000, "shared_handler_replays": 5000},
 		Jobs: func(tier string, seed int64) []Job {
 			n := pick(tier, 3200, 100000)
 			js := chunk("hist", "prod", n, pick(tier, 200, 3200), Job{Procs: 1, Timeout: 40 * time.Minute})
@@ -184,6 +184,9 @@ func init() {
 			// real parallelism on unrelated loggers, with and without the race detector
 			js = append(js, chunk("parallel", "prod", pick(tier, 24, 600), pick(tier, 6, 40), Job{Timeout: 40 * time.Minute})...)
 			js = append(js, chunk("parallel", "prod", pick(tier, 12, 240), pick(tier, 6, 40), Job{Race: true, Args: []string{"-x", "race=1"}, Timeout: 40 * time.Minute})...)
+			// one log/slog handler family shared by all goroutines, each replaying a record of its own
+			js = append(js, chunk("sharedhandler", "prod", pick(tier, 24, 600), pick(tier, 6, 40), Job{Timeout: 40 * time.Minute})...)
+			js = append(js, chunk("sharedhandler", "prod", pick(tier, 12, 240), pick(tier, 6, 40), Job{Race: true, Args: []string{"-x", "race=1"}, Timeout: 40 * time.Minute})...)
 			return js
 		},
 	})
